@@ -32,9 +32,10 @@ from ..core import Ctx, ExtractError
 
 ID = "C09"
 LEVEL = "proof"
-STRENGTH = "partial"     # F10, F13 repaired; NEGATED for the current tree (open findings F14, F15): the stages after a mismatch / the start once the object matches again while the flagged instance is still there; "never crashes" and the staged upper bounds of the cycle-driven stops (deletion mark, mismatch) rest on oracle/tie
+STRENGTH = "partial"     # F10, F13, F14, F15 repaired (no open finding); every clause but "never crashes" has theorems; that a delay returned by a cycle brings the next cycle (sleep -> touch -> event: the time bounds of the cycle-driven stops after a deletion mark / a mismatch, and of the deferred start) is outside the model: oracle O9/O14/O15 + tie
 ENGINES = ["lean-model", "pyextract", "kopfsim"]
-TIE = ("T: stage chain of stop_daemons + phase list of stop_daemon (AST → Lean, re-proved equal to the model); "
+TIE = ("T: stage chain of stop_daemons + phase list of stop_daemon + per-handler action of spawn_daemons + selection and "
+       "immediate-re-visit condition of match_daemons (AST → Lean, re-proved equal to the model); "
        "S: every process_spawning_cause pass and every daemon-killer stop_daemon run of whole-operator simulations "
        "replayed through the Lean model; spin detector + pool watchdog for stalls")
 LEVEL_TEXT = (
@@ -56,11 +57,32 @@ LEVEL_TEXT = (
     "delay incl. 0. 'The stop flag is obeyed by the wrapper': stopped_timer_returns / stopped_daemon_returns — wherever `_timer` / "
     "`_daemon` is when its stopper is set (initial delay, idle wait, interval / retry sleep, after-run idle loop; not inside the call "
     "itself) it RETURNS within 4 / 3 micro-steps without suspending and WITHOUT calling the function again (ties: every "
-    "`aiotime.sleep` of both has the stopper as wake-up event; the re-check after the idle wait). NEGATED for the current tree "
-    "(open findings F14, F15, replayed by corpus/C09/F14.json, F15.json): rematched_not_escalated (a cycle of a matching, unmarked "
-    "object changes nothing and returns no delay, whatever stage a flagged instance is in: after a mismatch followed by a re-match "
-    "nobody cancels / abandons / replaces it: rematch_witness) and only_cycles_spawn + deferred_start_witness (a start skipped "
-    "because the stopping instance was still there is not made up for when it ends). Historical negations kept as regressions' model side: `nonyielding_retry_spins(+_witness)`, "
+    "`aiotime.sleep` of both has the stopper as wake-up event; the re-check after the idle wait). AFTER A FILTER MISMATCH (F14 repaired, F15 bounded by ef26531; "
+    "tree variant `escorts`, tied to the AST of match_daemons / spawn_daemons and compared on every observed cycle): "
+    "escorted_whatever_matching (for every state with a running instance that carries FILTERS_MISMATCH, every cycle of the unmarked "
+    "object gives THE SAME state whether the body matches again or not, and returns at least the same delays), "
+    "mismatch_stages_visited (such a cycle at flag age a leaves the instance ended, or: a < backoff: signalled + the rest of the "
+    "backoff returned; backoff over, a < backoff+timeout: task.cancel() called + the rest returned; backoff+timeout <= a: abandoned; "
+    "no timeout: cancellation_polling returned — whatever inp.matching), mismatch_flag_is_kept + escorted_to_the_end (after ANY label "
+    "list without a spawn — re-matches, pauses, the killer's stages, time — it is the same instance with its reasons and the time w "
+    "of its flag: every later cycle of the unmarked object, matching or not, leaves it ended, or cancelled once backoff <= now-w, "
+    "abandoned once backoff+timeout <= now-w), deferred_start_is_rescheduled (a selected handler whose "
+    "previous instance is still stopping, after a mismatch OR a pause, is skipped — never two instances — WITH cancellation_polling "
+    "returned), ended_in_visit_asks_revisit (ended inside match_daemons' visit while selected: delay 0, not remembered as an own exit), "
+    "replaced_after_end + replaced_within_one_further_cycle (once it has ended, the next cycle of the live matching object starts "
+    "exactly one new instance), only_cycles_spawn (the start is made by that cycle, by nothing else). 'Started when the object … "
+    "starts matching' vs. 'a stopping instance is not respawned before it has fully ended': the statement gives no time bound and "
+    "itself forbids the start while the stopping instance is there; nothing notifies the processing of an instance's end (the design "
+    "is cycle-driven), so the deferred start comes with the next re-check of the exiting instance — at once (delay 0) when it ends "
+    "inside a visit, else within cancellation_polling, the documented knob for polling an exiting daemon. A start late by less than "
+    "one polling period after the end is therefore NOT counted as a violation (oracle O15 allows polling + 1 s; before ef26531 there "
+    "was no re-check at all: unbounded — that was F15); the same holds for the pause path (a daemon that outlives the re-listing after "
+    "the resume: the case daemon_killer's docstring calls low-priority; reproduced on the pre-repair tree by corpus F15-pause.json, "
+    "bounded the same way now; while the killer's stop_daemon coroutine keeps taking it through the stages: paused_daemon_* / tickOk). "
+    "NOT modelled: that a returned delay brings the next cycle (sleep, touch-patch, event) — oracle O9/O14/O15 on every history. "
+    "HISTORICAL (`escorts = false`, the code before ef26531): rematched_not_escalated (a cycle of a matching, unmarked object changed "
+    "nothing and returned no delay, whatever stage a flagged instance was in), rematch_witness, deferred_start_witness (both variants "
+    "side by side); corpus F14.json / F15.json / F15-pause.json are passing regressions. Historical negations kept as regressions' model side: `nonyielding_retry_spins(+_witness)`, "
     "`daemon_nonyielding_retry_spins` (F12, code before b04c26c), `idle_only_spins(+_witness)` (F1, code "
     "before 6ccf081); the corpus cases F1/F12*.json are passing regressions. 'Never crashes' has NO theorem: oracle on every history (no exception out of the "
     "killer / processing / operator, operator alive) + tie `killer_iterates_snapshots` + corpus regressions (F11 fixed by 06bf1c1). "
@@ -89,7 +111,10 @@ THEOREMS = [("Kopf.Props.C09", "Kopf.C09." + n) for n in [
     "respawned_while_exiting", "exit_respawn_witness",
     "gone_unmarked_not_stopped", "orphan_never_stopped", "gone_unmarked_witness",
     "progress", "daemon_progress", "stopped_timer_returns", "stopped_daemon_returns",
-    "rematched_not_escalated", "only_cycles_spawn", "rematch_witness", "deferred_start_witness",
+    "escorted_whatever_matching", "mismatch_stages_visited", "mismatch_flag_is_kept", "escorted_to_the_end",
+    "deferred_start_is_rescheduled", "ended_in_visit_asks_revisit",
+    "replaced_after_end", "replaced_within_one_further_cycle", "only_cycles_spawn",
+    "rematched_not_escalated", "rematch_witness", "deferred_start_witness",
     "nonyielding_retry_spins", "nonyielding_retry_witness", "daemon_nonyielding_retry_spins",
     "idle_only_spins", "idle_only_spins_witness"]]
 TIE_THEOREMS = [("Kopf.Tie.C09", "Kopf.C09.Tie." + n) for n in ["stage_eq", "killer_phases_eq", "timers_force_none",
@@ -97,7 +122,8 @@ TIE_THEOREMS = [("Kopf.Tie.C09", "Kopf.C09.Tie." + n) for n in ["stage_eq", "kil
                                                                          "sweep_unconditional", "killer_period_eq",
                                                                          "loops_yield_each_iteration", "timer_failure_is_forever",
                                                                          "stops_gone", "marks_exiting",
-                                                                         "sleeps_wake_on_stop", "timer_rechecks_stop_after_idle"]]
+                                                                         "sleeps_wake_on_stop", "timer_rechecks_stop_after_idle",
+                                                                         "spawn_act_eq", "match_visits_eq", "revisit_now_eq"]]
 RULE = ("seeded whole-operator histories: 1-2 objects, 1-3 daemons/timers (modes obey/cancel/ignore/exit; cancellation_backoff/"
         "timeout in {None,0,small,large}; timers with interval/idle/both/neither, sharp, initial_delay), optional label filter and "
         "change handler, timeline of label toggles, spec edits, graceful deletion, deletion before the finalizer lands, forced "
@@ -110,9 +136,10 @@ RULE = ("seeded whole-operator histories: 1-2 objects, 1-3 daemons/timers (modes
         "process_spawning_cause pass or one daemon-killer stop_daemon run; distinct & non-trivial = distinct abstracted "
         "(inputs, pre-state shape, stage taken) tuples in which something is spawned, flagged, cancelled, abandoned or ended")
 TRUSTED = ["harness/sim (virtual-time loop, fake API server) + the local instrumentation in harness/props/c09.py",
-           "pyextract atom vocabulary for daemons.stop_daemons / stop_daemon",
+           "pyextract atom vocabulary for daemons.stop_daemons / stop_daemon / spawn_daemons / match_daemons",
            "the oracle's reading of 'matches' (label equality/presence filters only) and its reaction allowance of 1 s virtual time "
-           "(0.25 s for an instance none of whose user code runs to end on its flag)"]
+           "(0.25 s for an instance none of whose user code runs to end on its flag; one cancellation_polling period + 1 s for a start "
+           "that had to wait for the previous, stopping instance to end)"]
 ASSUMPTIONS = ["settings.background.instant_exit_timeout is None (the default): no time passes inside one stop_daemons call "
                "(model and tie; histories with a small instant_exit_timeout are generated and judged by the oracle alone)",
                "async daemons/timers only (sync ones run in real threads: outside the model)",
@@ -978,8 +1005,64 @@ def gen_rematch_scenario(rng: Any, seed: int) -> dict:
     if rng.random() < 0.3:
         t += rng.choice([2.0, 4.0])
         tl.append([t, "edit", "a", {"spec": {"x": 9}}])
-    return {"runner": RUNNER, "seed": seed, "handlers": handlers, "timeline": tl, "end": t + rng.choice([4.0, 7.0]),
-            "settings": {}, "flavour": "rematch"}
+    settings: dict[str, Any] = {}
+    tail = rng.choice([4.0, 7.0])
+    if rng.random() < 0.5:
+        # a short re-check period and a history long enough to see the deferred start made up for (O15), also for the
+        # instances that end late by themselves ("exit", after 2.5-4.5 s) or only when abandoned ("ignore")
+        poll = rng.choice([1.0, 2.0, 2.0])
+        if rng.random() < 0.5:
+            settings["background.cancellation_polling"] = poll
+        else:
+            for h in handlers:
+                if h["kind"] == "daemon" and h["id"] != "d9":
+                    h["opts"]["cancellation_polling"] = poll
+        tail = poll + rng.choice([6.0, 9.0])
+    return {"runner": RUNNER, "seed": seed, "handlers": handlers, "timeline": tl, "end": t + tail,
+            "settings": settings, "flavour": "rematch"}
+
+
+def gen_repause_scenario(rng: Any, seed: int) -> dict:
+    """The pause path of the deferred start: a daemon / timer that is slow to end is flagged by the killer when the operator
+    pauses and is STILL THERE when the operator resumes (the re-listing's cycle cannot start anything: the id is taken); it
+    ends later. The start has to be made up for by the re-check that `spawn_daemons` asks for (cancellation_polling)."""
+    handlers: list[dict] = []
+    poll = rng.choice([1.0, 2.0, 2.0, 3.0])
+    for k in range(rng.choice([1, 1, 2])):
+        if rng.random() < 0.75:
+            opts: dict[str, Any] = {}
+            b, tmo = rng.choice([None, None, 0.5, 2.0]), rng.choice([None, None, 1.0, 3.0])
+            if b is not None:
+                opts["cancellation_backoff"] = b
+            if tmo is not None:
+                opts["cancellation_timeout"] = tmo
+            if rng.random() < 0.4:
+                opts["cancellation_polling"] = poll
+            if rng.random() < 0.3:
+                opts["labels"] = {"on": "1"}
+            handlers.append({"kind": "daemon", "id": f"d{k}", "opts": opts,
+                             "daemon": {"mode": rng.choice(["exit", "exit", "ignore", "cancel"]), "after": rng.choice([3.0, 5.0, 6.5])}})
+        else:
+            handlers.append({"kind": "timer", "id": f"t{k}", "opts": {"interval": rng.choice([1.0, 2.5])}, "tcfg": "interval",
+                             "dur": rng.choice([2.0, 4.0])})
+    if rng.random() < 0.3:
+        handlers.append({"kind": "create", "id": "c1"})
+    t = 1.0
+    tl: list[list] = [[t, "create", "a", {"spec": {"x": 0}, "metadata": {"labels": {"on": "1"}}}]]
+    t += rng.choice([0.5, 1.0, 2.0])
+    tl.append([t, "pause"])
+    t += rng.choice([0.25, 0.5, 1.0, 1.5, 2.5])
+    tl.append([t, "resume"])
+    if rng.random() < 0.3:
+        t += rng.choice([0.5, 1.5])
+        tl.append([t, "edit", "a", {"spec": {"x": 1}}])
+    if rng.random() < 0.2:                      # a second, short pause while the first stop is still going on
+        t += rng.choice([0.5, 1.0])
+        tl.append([t, "pause"])
+        t += rng.choice([0.5, 1.0])
+        tl.append([t, "resume"])
+    return {"runner": RUNNER, "seed": seed, "handlers": handlers, "timeline": tl, "end": t + 8.0 + poll + rng.choice([2.0, 5.0]),
+            "settings": {"background.cancellation_polling": poll}, "flavour": "repause"}
 
 
 def gen_exit_flagged_scenario(rng: Any, seed: int) -> dict:
@@ -1026,7 +1109,9 @@ def _gen_scenario(rng: Any, seed: int) -> dict:
         return gen_rematch_scenario(rng, seed)
     if r < 0.22:
         return gen_exit_flagged_scenario(rng, seed)
-    r = (r - 0.22) / 0.78
+    if r < 0.26:
+        return gen_repause_scenario(rng, seed)
+    r = (r - 0.26) / 0.74
     if r < 0.2:
         return gen_pause_scenario(rng, seed)
     if r < 0.3:
@@ -1986,11 +2071,22 @@ def oracle(ctx: Ctx, sc: dict, res: dict) -> dict:
                      {"site": "daemons.match_daemons", "shape": f"flagged daemon is not {what} in time", "reason": "FILTERS_MISMATCH"},
                      sid=i["sid"])
             break
-    # ---- O15: a start that had to wait for the previous (stopping) instance to end is made up for once it has ended -------------
+    # ---- O15: a start that had to wait for the previous (stopping) instance to end is made up for once it has ended ------------
+    #      The statement has no time bound for "started when the object … starts matching", and it FORBIDS the start while the
+    #      stopping instance is there. Nothing tells the processing that an instance has ended (the design is cycle-driven:
+    #      delays -> touch -> next cycle), so the deferred start is due with the next re-check of the exiting instance, whose
+    #      period is the documented knob for exactly that: `cancellation_polling` ("how often to poll the status of an exiting
+    #      daemon"; per daemon or settings.background). Allowed: one polling period + the reaction allowance after the end.
+    #      (Before ef26531 no re-check was scheduled at all: "never" — findings F14/F15.)
+    import kopf as _kopf
+    code_poll = float(_kopf.OperatorSettings().background.cancellation_polling)
+    set_poll = float(sc.get("settings", {}).get("background.cancellation_polling", code_poll))
     for (inc, uid, hid), lst in by_key.items():
         h, iv, ob = hs.get(hid), incs.get(inc), objs.get(uid)
         if h is None or iv is None or ob is None:
             continue
+        poll = float((h.get("opts", {}).get("cancellation_polling") if h["kind"] == "daemon" else None) or set_poll)
+        allow = poll + DELTA
         for k, a in enumerate(lst):
             te = a["t_end"]
             if te is None or a["own_exit"] or a["muted"] or not a["sets"]:
@@ -1998,20 +2094,27 @@ def oracle(ctx: Ctx, sc: dict, res: dict) -> dict:
             first = next((e for e in a["sets"] if any(r in PRIMARY for r in e["reason"])), None)
             if first is None or not (set(first["reason"]) & {"FILTERS_MISMATCH", "OPERATOR_PAUSING"}):
                 continue
-            if te + DELTA >= end or not listening(inc, te, te + DELTA) or not all(should_run(ob, h, te + DELTA * j / 16) for j in range(17)):
-                continue
             # the object matched (and the operator listened) already before the instance ended: the start was due then
-            due_before = any(should_run(ob, h, x) and listening(inc, x, x) for x in [te - 1.0 / 128])
+            due_before = should_run(ob, h, te - 1.0 / 128) and listening(inc, te - 1.0 / 128, te - 1.0 / 128)
             if not due_before:
                 continue                     # a rising edge at or after the end: O2 judges it
-            if any(c.get("outcome") == "perm" and c["t_end"] is not None and c["t_end"] <= te + DELTA for c in calls_by.get((inc, uid, hid), [])):
+            if any(c.get("outcome") == "perm" and c["t_end"] is not None and c["t_end"] <= te + allow for c in calls_by.get((inc, uid, hid), [])):
                 continue
-            if any(te <= b["t_spawn"] <= te + DELTA for b in lst[k + 1:]):
-                ctx.count("start_trigger", "started after the stopping instance had ended")
+            nxt = next((b for b in lst[k + 1:] if b["t_spawn"] >= te), None)
+            upto = te + allow if nxt is None else min(te + allow, nxt["t_spawn"])
+            pts = [te, upto] + [v["t"] for v in ob["versions"] if te <= v["t"] <= upto]
+            if upto >= end or not listening(inc, te, upto) or not all(should_run(ob, h, x) for x in pts):
+                ctx.count("start_trigger", "deferred start: the window is cut short (end of history, pause, exit, mismatch, deletion)")
+                continue
+            if nxt is not None and nxt["t_spawn"] <= te + allow:
+                late = nxt["t_spawn"] - te
+                ctx.count("start_trigger", "started after the stopping instance had ended: " +
+                          ("at once (<= 1 s)" if late <= DELTA else "late, within cancellation_polling"))
+                info["max_deferred_start_latency"] = max(info.get("max_deferred_start_latency", 0.0), late)
             else:
                 fail(f"{hid} of {uid}: the instance created at t={a['t_spawn']} was asked to stop at t={first['t']} ({first['reason']}) and "
                      f"ended at t={te}; the object matches and the operator listens since before that, but no new instance was started "
-                     f"within {DELTA}s of the end (next: {[b['t_spawn'] for b in lst[k + 1:]][:1]})",
+                     f"within cancellation_polling ({poll}s) + {DELTA}s of the end (next: {[b['t_spawn'] for b in lst[k + 1:]][:1]})",
                      dict(F15_SIG), t=te, uid=uid, hid=hid)
     return info
 
@@ -2082,6 +2185,103 @@ def _act_of(stmts: list[ast.stmt]) -> str:
         raise ExtractError(f"statement outside the accepted shapes in a stage branch: `{text[:120]}`")
     b = lambda x: "true" if x else "false"  # noqa: E731
     return f"{{ set := {setr}, cancel := {b(cancel)}, wait := {b(wait)}, delay := {delay}, delayIfAlive := {b(guarded)} }}"
+
+
+SPAWN_VOCAB = {"handler.id in daemons": "idTaken", "handler.id not in daemons": "(!idTaken)",
+               "daemons[handler.id].stopper.is_set()": "stopperSet"}
+SPAWN_RECHECK = ["polling = getattr(handler, 'cancellation_polling', None)",
+                 "delays.append(polling or settings.background.cancellation_polling)"]
+SPAWN_PROLOGUE = {"delays: list[float] = []"}
+MATCH_VOCAB = {"daemon.handler.id not in matching_daemon_ids": "notSelected",
+               "daemon.stopper.is_set(reason=stoppers.DaemonStoppingReason.FILTERS_MISMATCH)": "flaggedMismatch"}
+REVISIT_VOCAB = {"id in matching_daemon_ids": "selected", "id not in daemons": "gone"}
+MATCH_STOP_CALL = ("stop_daemons(settings=settings, daemons=mismatching_daemons, "
+                   "reason=stoppers.DaemonStoppingReason.FILTERS_MISMATCH)")
+
+
+def _is_spawn_block(stmts: list[ast.stmt]) -> bool:
+    """`stopper = DaemonStopper(); ...; daemon = Daemon(..., task=asyncio.create_task(_runner(...))); daemons[handler.id] = daemon`"""
+    texts = [pyextract.norm(st) for st in stmts]
+    return len(texts) >= 3 and texts[0] == "stopper = stoppers.DaemonStopper()" and texts[-1] == "daemons[handler.id] = daemon" \
+        and any(t.startswith("daemon = Daemon(") and "task=asyncio.create_task(_runner(" in t for t in texts) \
+        and all(isinstance(st, ast.Assign) for st in stmts) and not any("delays" in t for t in texts)
+
+
+def _spawn_act(stmts: list[ast.stmt], tr: Any) -> str:
+    """What `spawn_daemons` does for one handler: a statement list → a Lean term of type `SpawnAct`."""
+    stmts = [st for st in stmts if not _is_log(st) and pyextract.norm(st) != "pass"]
+    if not stmts:
+        return "{ spawn := false, delay := none }"
+    if _is_spawn_block(stmts):
+        return "{ spawn := true, delay := none }"
+    if [pyextract.norm(st) for st in stmts] == SPAWN_RECHECK:
+        return "{ spawn := false, delay := some Delay.polling }"
+    if len(stmts) == 1 and isinstance(stmts[0], ast.If):
+        st = stmts[0]
+        return f"(if {tr.tr(st.test)} then {_spawn_act(st.body, tr)} else {_spawn_act(st.orelse, tr)})"
+    raise ExtractError(f"spawn_daemons: statement outside the accepted shapes for one handler: `{pyextract.norm(stmts[0])[:120]}`")
+
+
+def extract_spawn(tree: ast.AST) -> str:
+    """`spawn_daemons` → `def spawnAct (idTaken stopperSet : Bool) : SpawnAct`."""
+    fn = pyextract.find_def(tree, "spawn_daemons")
+    body = pyextract.body_without_docstring(fn)
+    loops = [k for k, st in enumerate(body) if isinstance(st, ast.For)]
+    if len(loops) != 1 or pyextract.norm(body[loops[0]].target) != "handler" or pyextract.norm(body[loops[0]].iter) != "handlers" \
+            or body[loops[0]].orelse:
+        raise ExtractError("spawn_daemons is no longer one loop `for handler in handlers`")
+    k = loops[0]
+    declares = False
+    for st in body[:k]:
+        text = pyextract.norm(st)
+        if text in SPAWN_PROLOGUE:
+            declares = True
+            continue
+        guard = isinstance(st, ast.If) and not st.orelse and len(st.body) == 1 and (
+            (pyextract.norm(st.test) in ("memory.operator_exiting", "memory.object_gone") and pyextract.norm(st.body[0]) == "return []")
+            or (pyextract.norm(st.test) == "memory.live_fresh_body is None" and isinstance(st.body[0], ast.Raise)))
+        if not guard:
+            raise ExtractError(f"spawn_daemons: unexpected statement before the loop: `{text[:120]}`")
+    tail = [pyextract.norm(st) for st in body[k + 1:]]
+    act = _spawn_act(body[k].body, pyextract.BoolTranslator(SPAWN_VOCAB))
+    returns_delays = "delay := some" in act
+    if tail == ["return delays"] and declares:
+        pass
+    elif tail == ["return []"] and not returns_delays and not declares:
+        pass
+    else:
+        raise ExtractError(f"spawn_daemons: what it returns does not fit what its loop collects: {tail!r}")
+    return act
+
+
+def extract_match(tree: ast.AST) -> tuple[str, str]:
+    """`match_daemons` → (`matchVisits notSelected flaggedMismatch`, `revisitNow selected gone`) as Lean Bool terms."""
+    fn = pyextract.find_def(tree, "match_daemons")
+    body = pyextract.body_without_docstring(fn)
+    texts = [pyextract.norm(st) for st in body]
+    if len(body) < 4 or texts[0] != "matching_daemon_ids = {handler.id for handler in handlers}" or texts[-1] != "return delays":
+        raise ExtractError("match_daemons: the selected ids / the returned delays are not where they were")
+    sel = body[1]
+    comp = sel.value if isinstance(sel, ast.Assign) and pyextract.norm(sel.targets[0]) == "mismatching_daemons" else None
+    if not isinstance(comp, ast.DictComp) or pyextract.norm(comp.key) != "daemon.handler.id" or pyextract.norm(comp.value) != "daemon" \
+            or len(comp.generators) != 1 or pyextract.norm(comp.generators[0].target) != "daemon" \
+            or pyextract.norm(comp.generators[0].iter) != "daemons.values()" or len(comp.generators[0].ifs) != 1:
+        raise ExtractError("match_daemons: `mismatching_daemons` is no longer one filtered comprehension over daemons.values()")
+    visits = pyextract.BoolTranslator(MATCH_VOCAB).tr(comp.generators[0].ifs[0])
+    if texts[2] not in (f"delays = list(await {MATCH_STOP_CALL})", f"delays = await {MATCH_STOP_CALL}"):
+        raise ExtractError(f"match_daemons: the visited daemons are not passed to stop_daemons(FILTERS_MISMATCH): `{texts[2][:120]}`")
+    revisit = "false"
+    rest = body[3:-1]
+    if rest:
+        st = rest[0]
+        gen = st.test.args[0] if len(rest) == 1 and isinstance(st, ast.If) and not st.orelse and isinstance(st.test, ast.Call) \
+            and pyextract.norm(st.test.func) == "any" and len(st.test.args) == 1 and not st.test.keywords else None
+        if not isinstance(gen, ast.GeneratorExp) or len(gen.generators) != 1 or gen.generators[0].ifs \
+                or pyextract.norm(gen.generators[0].target) != "id" or pyextract.norm(gen.generators[0].iter) != "mismatching_daemons" \
+                or [pyextract.norm(x) for x in st.body] != ["delays.append(0)"] or not texts[2].startswith("delays = list("):
+            raise ExtractError(f"match_daemons: statement outside the accepted shapes after the stop: `{pyextract.norm(st)[:120]}`")
+        revisit = pyextract.BoolTranslator(REVISIT_VOCAB).tr(gen.elt)
+    return visits, revisit
 
 
 def extract(ctx: Ctx) -> None:
@@ -2231,6 +2431,16 @@ def extract(ctx: Ctx) -> None:
     out += ("/-- `_timer`: the wait for the object to become idle is followed by `if stopper.is_set(): continue` (the model's\n"
             "    program point `idleDone`): a timer woken from that wait by its stopper does not call the function -/\n"
             f"def timerRechecksStopAfterIdle : Bool := {'true' if timer_rechecks_stop_after_idle(tree) else 'false'}\n\n")
+    visits, revisit = extract_match(tree)
+    out += ("/-- `spawn_daemons`, for one selected handler: over `handler.id in daemons` and `daemons[handler.id].stopper.is_set()` -/\n"
+            f"def spawnAct (idTaken stopperSet : Bool) : SpawnAct :=\n  {extract_spawn(tree)}\n\n"
+            "/-- `match_daemons`: the filter of the comprehension `mismatching_daemons` (which running daemons are handed to\n"
+            "    `stop_daemons(FILTERS_MISMATCH)`), over `daemon.handler.id not in matching_daemon_ids` and\n"
+            "    `daemon.stopper.is_set(reason=FILTERS_MISMATCH)` -/\n"
+            f"def matchVisits (notSelected flaggedMismatch : Bool) : Bool := {visits}\n\n"
+            "/-- `match_daemons`: `if any(<this> for id in mismatching_daemons): delays.append(0)` after the stop, over\n"
+            "    `id in matching_daemon_ids` and `id not in daemons` (`false`: there is no such statement) -/\n"
+            f"def revisitNow (selected gone : Bool) : Bool := {revisit}\n\n")
     out += "end Kopf.C09.Extracted\n"
     leanio.write_generated("Kopf/Extracted/C09.lean", out)
 
@@ -2476,6 +2686,8 @@ def _run_batch(ctx: Ctx, scenarios: list[dict], names: list[str | None], oracle_
             ctx.count("result", "completed")
             ctx.extra["max_start_latency_s"] = max(ctx.extra.get("max_start_latency_s", 0.0), info["max_start_latency"])
             ctx.extra["max_stop_latency_s"] = max(ctx.extra.get("max_stop_latency_s", 0.0), info["max_stop_latency"])
+            ctx.extra["max_deferred_start_latency_s"] = max(ctx.extra.get("max_deferred_start_latency_s", 0.0),
+                                                            info.get("max_deferred_start_latency", 0.0))
             if sc.get("flavour"):
                 ctx.count("flavour", sc["flavour"])
             if sc.get("oracle_only"):
